@@ -951,6 +951,18 @@ theorem removeChild_maps (w : W) (l : String) :
     (removeChild w l).1.imap = w.imap ∧ (removeChild w l).1.omap = w.omap := by
   unfold removeChild; split <;> simp
 
+theorem replaceChild_maps (w : W) (l : String) (c : Child) :
+    (replaceChild w l c).1.imap = w.imap ∧ (replaceChild w l c).1.omap = w.omap := by
+  unfold replaceChild
+  split
+  · simp
+  · simp only
+    split
+    · simp
+    · split
+      · simp
+      · split <;> simp
+
 /-- every operation of the larger alphabet keeps both stored maps well-formed -/
 theorem step_inv (w : W) (op : Op) (h : WInv w) (hwf : op.WF) : WInv (step w op).1 := by
   obtain ⟨hi, ho⟩ := h
@@ -981,6 +993,7 @@ theorem step_inv (w : W) (op : Op) (h : WInv w) (hwf : op.WF) : WInv (step w op)
     cases s
     · exact ⟨editStored_ok _ e hi, ho⟩
     · exact ⟨hi, editStored_ok _ e ho⟩
+  | replace l c => have := replaceChild_maps w l c; simp only [step, WInv, this.1, this.2]; exact ⟨hi, ho⟩
 
 theorem run_inv (ops : List Op) (hwf : ∀ op ∈ ops, op.WF) : ∀ (w : W), WInv w → WInv (run w ops) := by
   induction ops with
